@@ -147,13 +147,13 @@ def cost(line):
     return bits * bits
 
 
-def par_monitor(ctx, name, trace, cover=None, workers=WORKERS, timeout=2400):
+def par_monitor(ctx, name, trace, cover=None, workers=WORKERS, timeout=6000):
     """Trace_C11 over `workers` interleaved chunks of the trace, concurrently; the verdicts are merged and
     accounted exactly as Ctx.monitor does for one file."""
     lines = [l for l in open(trace).read().split("\n") if l.strip()]
     if not lines:
         raise fw.ToolError("empty trace " + trace)
-    workers = max(1, min(workers, len(lines) // 20 or 1))
+    workers = max(1, min(workers, len(lines) // 4 or 1))
     order = sorted(range(len(lines)), key=lambda i: -cost(lines[i]))
     chunks = [order[k::workers] for k in range(workers)]          # expensive events dealt round robin
     paths = []
@@ -201,6 +201,9 @@ def par_monitor(ctx, name, trace, cover=None, workers=WORKERS, timeout=2400):
         if len(ctx.samples) < 3 and i % 7 == 1:
             ctx.samples.append(fw._shorten(e))
     ctx.drift += len(merged["disagree"])
+    for i in merged["undecided"][:5]:
+        e = json.loads(lines[i - 1])
+        ctx.scope.setdefault("undecided_samples", []).append({k: e[k] for k in ("op", "base", "mode", "prec", "x", "y", "n", "cls")})
     return merged
 
 
@@ -216,15 +219,21 @@ def selfcheck(ctx):
 
 
 def dispatch_model(ctx):
-    ctx.mc("mc-dispatch", DIR, "ExpLogAlg.tla", "MC_ExpLogAlg.cfg", workers=2, required_actions=ALG_ACTIONS, heap="2g")
-    # the same model without the Known_ disjuncts: the Exact-flag defects are found by model checking alone
-    r = ctx.mc("mc-dispatch-strict", DIR, "ExpLogAlg.tla", "MC_ExpLogAlg_strict.cfg", workers=2, heap="2g", expect_ok=False)
     open_ids = {k["id"] for k in ctx.known if k.get("status") == "open"}
+    # the model follows the code: once F32c is repaired in /repo (entry flipped to fixed) the flag is chained
+    consts = {"PowiNegKeepsFlag": "FALSE" if "F32c/C11" in open_ids else "TRUE"}
+    invs = ["OneBranch", "NoPanicInDomain", "UnlimitedRefused", "SpecialsRight", "OtherwiseEvaluated", "ExactFlagOrKnown"]
+    cfg = fw.write_cfg(ctx.path("MC_ExpLogAlg.cfg"), invariants=invs, constants=consts)
+    ctx.mc("mc-dispatch", DIR, "ExpLogAlg.tla", cfg, workers=2, required_actions=ALG_ACTIONS, heap="2g")
+    # the same model without the Known_ disjuncts: the Exact-flag defects are found by model checking alone
+    cfg = fw.write_cfg(ctx.path("MC_ExpLogAlg_strict.cfg"), invariants=["ExactFlagTruthful"], constants=consts)
+    r = ctx.mc("mc-dispatch-strict", DIR, "ExpLogAlg.tla", cfg, workers=2, heap="2g", expect_ok=False)
     refound = "ExactFlagTruthful" in r.invariant_violated
     if refound != bool(open_ids & {"F32b/C11", "F32c/C11"}):
         raise fw.ToolError("dispatch model and findings disagree: strict model %s the Exact-flag invariant, open findings %s"
                            % ("violates" if refound else "satisfies", sorted(open_ids)))
     ctx.scope["exact_flag_defect_refound_by_model"] = refound
+    ctx.scope["model_constants"] = consts
 
 
 def witnesses(ctx):
@@ -267,7 +276,7 @@ def run(ctx):
     thin = ctx.pick(2, 1)
     cfg = fw.write_cfg(ctx.path("Gen_C11.cfg"), invariants=["Emit"],
                        constants={"Bases": fw.tla_set(BASES), "Precs": fw.tla_set(precs), "Seed": ctx.seed % 100000,
-                                  "Thin": thin, "AllModes": "FALSE"})
+                                  "Thin": thin, "ThinBig": ctx.pick(2, 1), "AllModes": "FALSE"})
     cases, ncases = ctx.gen("gen", DIR, "Gen_C11.tla", cfg, workers=4)
     ws = witnesses(ctx)
     with open(cases, "a") as f:
@@ -277,7 +286,7 @@ def run(ctx):
     tr1 = ctx.drive(drive, ["--cases", cases, "--n", "0"], "trace-gen.ndjson")
     v1 = par_monitor(ctx, "mon-gen", tr1, cover=cover)
     # impl -> spec: seeded random arguments of the same families
-    n = ctx.pick(2500, 16000)
+    n = ctx.pick(2000, 20000)
     tr2 = ctx.drive(drive, ["--seed", str(ctx.seed), "--n", str(n), "--max-prec", "40"], "trace-rnd.ndjson")
     v2 = par_monitor(ctx, "mon-rnd", tr2, cover=cover)
     verdicts = [v1, v2]
@@ -285,17 +294,17 @@ def run(ctx):
         # precision 100 on every base (thinned), a few cases at 300 digits
         cfg = fw.write_cfg(ctx.path("Gen_C11_100.cfg"), invariants=["Emit"],
                            constants={"Bases": fw.tla_set(BASES), "Precs": "{100}", "Seed": ctx.seed % 100000,
-                                      "Thin": 3, "AllModes": "FALSE"})
+                                      "Thin": 2, "ThinBig": 1, "AllModes": "FALSE"})
         c100, n100 = ctx.gen("gen100", DIR, "Gen_C11.tla", cfg, workers=4)
         cfg = fw.write_cfg(ctx.path("Gen_C11_300.cfg"), invariants=["Emit"],
                            constants={"Bases": "{2, 10, 36}", "Precs": "{300}", "Seed": ctx.seed % 100000,
-                                      "Thin": 24, "AllModes": "FALSE"})
+                                      "Thin": 16, "ThinBig": 1, "AllModes": "FALSE"})
         c300, n300 = ctx.gen("gen300", DIR, "Gen_C11.tla", cfg, workers=4)
         ctx.scope.update({"gen_cases_p100": n100, "gen_cases_p300": n300})
         tr3 = ctx.drive(drive, ["--cases", c100, "--n", "0"], "trace-gen100.ndjson")
-        verdicts.append(par_monitor(ctx, "mon-gen100", tr3, cover=cover, timeout=3000))
+        verdicts.append(par_monitor(ctx, "mon-gen100", tr3, cover=cover, timeout=6000))
         tr4 = ctx.drive(drive, ["--cases", c300, "--n", "0"], "trace-gen300.ndjson")
-        verdicts.append(par_monitor(ctx, "mon-gen300", tr4, cover=cover, timeout=3000))
+        verdicts.append(par_monitor(ctx, "mon-gen300", tr4, cover=cover, timeout=6000))
     rate_guard(ctx)
     total = sum(v["total"] for v in verdicts)
     und = sum(len(v["undecided"]) for v in verdicts)
